@@ -50,6 +50,37 @@ impl Spec {
         s.push('\n');
         s
     }
+    /// the same document with a line break (and a comment) after every opening bracket and every value
+    pub fn text_multiline(&self, style: usize) -> String {
+        let mut s = String::new();
+        if self.header > 0 {
+            let p = vec!["h"; self.header].join(".");
+            s.push_str(&if self.aot { format!("[[{p}]]\n") } else { format!("[{p}]\n") });
+        }
+        s.push_str(&vec!["k"; self.key].join("."));
+        s.push_str(" = ");
+        let mut close = String::new();
+        for l in &self.levels {
+            match l {
+                Level::Array => {
+                    // 0: break after every bracket; 1: break only after every value; 2: a comment
+                    // after every value; 3: blank + break on both sides
+                    s.push_str(["[ # c\n", "[", "[", "[ \n "][style % 4]);
+                    close.insert_str(0, ["\n]", "\n]", " # c\n]", " \n ]"][style % 4]);
+                }
+                Level::Inline { key } => {
+                    s.push('{');
+                    s.push_str(&vec!["i"; *key].join("."));
+                    s.push('=');
+                    close.insert(0, '}');
+                }
+            }
+        }
+        s.push('1');
+        s.push_str(&close);
+        s.push('\n');
+        s
+    }
     pub fn total(&self) -> usize {
         self.header + self.key + self.levels.iter().map(|l| match l { Level::Array => 1, Level::Inline { key } => *key }).sum::<usize>()
     }
@@ -139,10 +170,50 @@ pub fn run_batch(profile: &str, texts: &[String]) -> Vec<Outcome> {
     let mut out: Vec<Outcome> = vec![];
     let mut start = 0;
     while start < texts.len() {
-        let o = std::process::Command::new(worker_path(profile))
+        // the worker's output goes to a file so that a worker that does not come back can be
+        // killed and the input it is stuck on named (a hang is inconclusive, never a violation)
+        let outfile = format!("{file}.out");
+        let of = std::fs::File::create(&outfile).unwrap_or_else(|e| fault(&format!("create {outfile}: {e}")));
+        let mut childp = std::process::Command::new(worker_path(profile))
             .args([&file, &start.to_string()])
-            .output()
+            .stdout(of)
+            .stderr(std::process::Stdio::null())
+            .spawn()
             .unwrap_or_else(|e| fault(&format!("cannot run {}: {e}", worker_path(profile))));
+        static CHILDREN: std::sync::Mutex<Vec<u32>> = std::sync::Mutex::new(Vec::new());
+        CHILDREN.lock().unwrap().push(childp.id());
+        let t0 = std::time::Instant::now();
+        let status = loop {
+            match childp.try_wait() {
+                Ok(Some(st)) => {
+                    let id = childp.id();
+                    CHILDREN.lock().unwrap().retain(|p| *p != id);
+                    break st;
+                }
+                Ok(None) => {}
+                Err(e) => fault(&format!("wait: {e}")),
+            }
+            if t0.elapsed().as_secs() > 240 {
+                let _ = childp.kill();
+                let _ = childp.wait();
+                // the run ends here: no worker of a sibling thread is left behind
+                for p in CHILDREN.lock().unwrap().iter() {
+                    let _ = std::process::Command::new("kill").args(["-9", &p.to_string()]).status();
+                }
+                let done = std::fs::read_to_string(&outfile).map(|s| s.lines().count()).unwrap_or(0);
+                let stuck = texts.get(start + done).map(|t| t.chars().take(200).collect::<String>()).unwrap_or_default();
+                let _ = std::fs::remove_file(&file);
+                let _ = std::fs::remove_file(&outfile);
+                fault(&format!("[{profile}] the worker did not finish its batch within 240 s; it is stuck on input {} ({} bytes): {stuck:?}", start + done, texts.get(start + done).map(|t| t.len()).unwrap_or(0)));
+            }
+            std::thread::sleep(std::time::Duration::from_millis(20));
+        };
+        struct Out {
+            stdout: Vec<u8>,
+            status: std::process::ExitStatus,
+        }
+        let o = Out { stdout: std::fs::read(&outfile).unwrap_or_default(), status };
+        let _ = std::fs::remove_file(&outfile);
         let so = String::from_utf8_lossy(&o.stdout);
         for line in so.lines() {
             let mut it = line.splitn(2, ' ');
@@ -296,6 +367,54 @@ pub fn run(args: Args) -> ! {
         }
     }
     rep.extra.insert("smallest_rejected_depth".into(), serde_json::Value::Object(limits));
+
+    // ---- layout: the same nesting written over several lines (a line break and a comment after
+    // every opening bracket, a line break before every closing one) has the same outcome, and comes
+    // back at all: the worker is under a deadline, a parse whose cost explodes with the depth ends
+    // the run as inconclusive with the input named.
+    {
+        let mut specs: Vec<Spec> = vec![];
+        for d in (1..=100).chain([120, 150, 200]) {
+            specs.push(Spec { header: 0, aot: false, key: 1, levels: vec![Level::Array; d] });
+            let mixed: Vec<Level> = (0..d).map(|i| if i % 2 == 0 { Level::Array } else { Level::Inline { key: 1 } }).collect();
+            specs.push(Spec { header: 0, aot: false, key: 1, levels: mixed });
+            if d <= 60 {
+                specs.push(Spec { header: 10, aot: d % 2 == 0, key: 3, levels: vec![Level::Array; d] });
+            }
+        }
+        let specs: Vec<Spec> = specs.into_iter().flat_map(|s| vec![s; 4]).collect();
+        let texts: Vec<String> = specs.iter().enumerate().map(|(i, s)| s.text_multiline(i)).collect();
+        let flat: Vec<String> = specs.iter().map(|s| s.text()).collect();
+        let w = workers();
+        let chunk = (texts.len() + w - 1) / w;
+        for prof in ["debug", "release"] {
+            let run = |ts: &Vec<String>| -> Vec<Outcome> {
+                std::thread::scope(|sc| {
+                    let hs: Vec<_> = ts.chunks(chunk).map(|c| sc.spawn(move || run_batch(prof, c))).collect();
+                    hs.into_iter().flat_map(|h| h.join().unwrap()).collect()
+                })
+            };
+            let outs = run(&texts);
+            let outs_flat = run(&flat);
+            rep.stats.evals(outs.len() as u64 * 2);
+            rep.stats.class_n("layout.multiline", outs.len() as u64);
+            for (i, o) in outs.iter().enumerate() {
+                if let Err(f) = judge(&specs[i], prof, o) {
+                    rep.violation("layout", None, &f);
+                    break;
+                }
+                let same = matches!((o, &outs_flat[i]), (Outcome::Accept { depth: a }, Outcome::Accept { depth: b }) if a == b) || matches!((o, &outs_flat[i]), (Outcome::Reject { .. }, Outcome::Reject { .. }));
+                if !same {
+                    let f = Failure::new("layout", format!("[{prof}] the multi-line layout gives {o:?}, the one-line layout {:?}", outs_flat[i]), json!({"text": texts[i], "flat": flat[i]}));
+                    rep.violation("layout", None, &f);
+                    break;
+                }
+                if specs[i].total() >= 20 {
+                    rep.stats.nontrivial.insert(1);
+                }
+            }
+        }
+    }
 
     // ---- wide, not deep: many shallow siblings (and then one construct nested below the limit).
     // The depth counter has to be balanced: nesting that was left does not count any more.
